@@ -7,7 +7,7 @@ SPEC = {
     "harness_args": {"quick": ["-n", 1200, "-len", 14], "thorough": ["-n", 9000, "-len", 18]},
     "timeout": {"quick": 600, "thorough": 2400},
     "level": "proof",
-    "tie": "T3: after every batch of random histories on a real file-backed shard the index/points/internal buckets are dumped through (*Shard).VerifDB() and the Lean executable predicate wfB (the very definition WF of C10_step / C10_history) is evaluated on the dump by the driver; batches that reach the index as one change (single insert worker, deterministic) are replayed by the Lean model `apply` of insertUpdateDelete on the previous dump with the real distance tables (DistanceFromFloat / DistanceFromPoint of a vector store opened on the persisted bucket, Alpha*d as float32) and must reproduce the new dump's edge lists, vectors and maxNodeId exactly (the Go-map order of the rescue step is an oracle: the driver accepts any order of the rescued nodes that reproduces the dump); the index schema keys are flat (v, g) in 45 % and NESTED paths (n.v, n.m.v, a.b.c.v; filter property flat / sibling of the leaf / under another parent) in 55 % of the configurations, documents and updates are trees (updates replace or delete the top-level object above the leaf, carry a sibling only, an empty object, a nil leaf, an unrelated key); for every batch element whose point is named once a `doc` line carries the stored document before, the incoming document and whether the index held a vector for the node: the Lean `pstep` (top-level merge + dec.Query(schema path) on both documents + getOperation/preProcessVamana) must reproduce the document stored afterwards, whether the index holds a vector for the node now and (plain store) which one; batches that reach the index as SEVERAL changes get a `batch` line built from what the index itself recorded (hooks shard/index/vamana/verif_batch_on.go: the change stream the transform function received, what it filed each change under, the node store once the insert workers were waited for, EdgeScan's result): the Lean bookkeeping `classes` must equal the recorded inserted / updated / deleted / touched lists and maxNodeId, the observed mid graph must have the node set the model says and satisfy the Lean `wfB` for the old live points plus the inserted ones (the hypothesis of C10_step_any_workers), its edge lists must equal the model's when at most one point went to the workers, `toPrune` / `toSave` must equal EdgeScan's sets, and the Lean `tail` (removeInboundEdges with any delete set, both Deletes, every re-insert in order) started from the observed mid graph with the real distances must reproduce the dump after the batch exactly (node/vector sets only when the distance tables are not available: quantiser trained in the batch, > 26 vectors, NaN); a `docs` line replays the whole change stream of a multi-element batch (points named several times included) through the Lean `pbatch` against the recorded stream",
+    "tie": "T3: after every batch of random histories on a real file-backed shard the index/points/internal buckets are dumped through (*Shard).VerifDB() and the Lean executable predicate wfB (the very definition WF of C10_step / C10_history) is evaluated on the dump by the driver; batches that reach the index as one change (single insert worker, deterministic) are replayed by the Lean model `apply` of insertUpdateDelete on the previous dump with the real distance tables (DistanceFromFloat / DistanceFromPoint of a vector store opened on the persisted bucket, Alpha*d as float32) and must reproduce the new dump's edge lists, vectors and maxNodeId exactly (the Go-map order of the rescue step is an oracle: the driver accepts any order of the rescued nodes that reproduces the dump); the index schema keys are flat (v, g) in 45 % and NESTED paths (n.v, n.m.v, a.b.c.v; filter property flat / sibling of the leaf / under another parent) in 55 % of the configurations, documents and updates are trees (updates replace or delete the top-level object above the leaf, carry a sibling only, an empty object, a nil leaf, an unrelated key); for every batch element whose point is named once a `doc` line carries the stored document before, the incoming document and whether the index held a vector for the node: the Lean `pstep` (top-level merge + dec.Query(schema path) on both documents + getOperation/preProcessVamana) must reproduce the document stored afterwards, whether the index holds a vector for the node now and (plain store) which one; batches that reach the index as SEVERAL changes get a `batch` line built from what the index itself recorded (hooks shard/index/vamana/verif_batch_on.go: the change stream the transform function received, what it filed each change under, the node store once the insert workers were waited for, EdgeScan's result): the Lean bookkeeping `classes` must equal the recorded inserted / updated / deleted / touched lists and maxNodeId, the observed mid graph must have the node set the model says and satisfy the Lean `wfB` for the old live points plus the inserted ones (the hypothesis of C10_step_any_workers), its edge lists must equal the model's when at most one point went to the workers, `toPrune` / `toSave` must equal EdgeScan's sets, and the Lean `tail` (removeInboundEdges with any delete set, both Deletes, every re-insert in order) started from the observed mid graph with the real distances must reproduce the dump after the batch exactly (node/vector sets only when the distance tables are not available: quantiser trained in the batch, > 26 vectors, NaN); a `docs` line replays the whole change stream of a multi-element batch (points named several times included) through the Lean `pbatch` against the recorded stream and (plain store) the Lean `vecsAfter` against the raw vector the index persisted per node",
     "required_theorems": [
         "Sema.C10.C10_wf_meaning", "Sema.C10.C10_init", "Sema.C10.C10_step", "Sema.C10.C10_history_from",
         "Sema.C10.C10_history", "Sema.C10.C10_reserved_ids_rejected", "Sema.C10.C10_defect13_witness",
